@@ -44,9 +44,15 @@ type splice struct {
 // SelectFiles applies the rule of DESIGN §3.2 to the tree rooted at repo: every
 // non-test file of the cache package, and every other non-test .go file that
 // imports sync or sync/atomic.
-func SelectFiles(repo string) ([]string, error) {
+//
+// wide additionally selects every non-test file under primitives/ (the protocol
+// layer: ed25519, sr25519, merlin, ecvrf, x25519, h2c), so that tasks can be
+// preempted between the statements of Sign, Verify, batch verification etc.;
+// the arithmetic packages (curve, internal/*) stay atomic.
+func SelectFiles(repo string, wide bool) ([]string, error) {
 	var out []string
 	cacheDir := filepath.Join(repo, "primitives", "ed25519", "extra", "cache")
+	primDir := filepath.Join(repo, "primitives") + string(filepath.Separator)
 	err := filepath.Walk(repo, func(p string, info os.FileInfo, err error) error {
 		if err != nil {
 			return err
@@ -61,7 +67,7 @@ func SelectFiles(repo string) ([]string, error) {
 		if !strings.HasSuffix(p, ".go") || strings.HasSuffix(p, "_test.go") {
 			return nil
 		}
-		if filepath.Dir(p) == cacheDir {
+		if filepath.Dir(p) == cacheDir || (wide && strings.HasPrefix(p, primDir)) {
 			out = append(out, p)
 			return nil
 		}
@@ -112,6 +118,9 @@ func File(path string, next *int) (string, []Site, error) {
 	}
 
 	var curFunc string
+	// the Body of a switch / type switch / select is a block whose elements are the
+	// clauses themselves, not statements one may prefix
+	clauseBlocks := map[*ast.BlockStmt]bool{}
 	addList := func(list []ast.Stmt) {
 		for _, st := range list {
 			switch st.(type) {
@@ -136,8 +145,16 @@ func File(path string, next *int) (string, []Site, error) {
 			if x.Recv != nil && len(x.Recv.List) > 0 {
 				curFunc = "(" + exprString(x.Recv.List[0].Type) + ")." + curFunc
 			}
+		case *ast.SwitchStmt:
+			clauseBlocks[x.Body] = true
+		case *ast.TypeSwitchStmt:
+			clauseBlocks[x.Body] = true
+		case *ast.SelectStmt:
+			clauseBlocks[x.Body] = true
 		case *ast.BlockStmt:
-			addList(x.List)
+			if !clauseBlocks[x] {
+				addList(x.List)
+			}
 		case *ast.CaseClause:
 			addList(x.Body)
 		case *ast.CommClause:
@@ -196,8 +213,8 @@ func exprString(e ast.Expr) string {
 
 // Generate instruments the selected files of repo into outDir and writes
 // outDir/overlay.json and outDir/sites.json.
-func Generate(repo, outDir string) (*Result, error) {
-	files, err := SelectFiles(repo)
+func Generate(repo, outDir string, wide bool) (*Result, error) {
+	files, err := SelectFiles(repo, wide)
 	if err != nil {
 		return nil, err
 	}
